@@ -358,6 +358,26 @@ def bad_payload(rng, words):
     return rng.choice(["zz", "0", "0100", "hello", "١٢", "0x0102030405"])
 
 
+def crc_twin(rng, img):
+    """Another image of the same length whose padded data has the same CRC-16/MODBUS (two bytes are solved for)."""
+    n = len(img)
+    if n < 6 or n > 3000:
+        return None
+    import crcmod.predefined
+    f = crcmod.predefined.mkCrcFun("modbus")
+    tail = bytes(padded(bytes(img))[n:])
+    target = f(bytes(img) + tail)
+    b = bytearray(img)
+    i = rng.randrange(0, n)
+    b[i] ^= rng.randrange(1, 256)
+    j = rng.choice([x for x in range(0, n - 1) if x not in (i - 1, i)])
+    for x in range(65536):
+        b[j], b[j + 1] = x >> 8, x & 255
+        if f(bytes(b) + tail) == target:
+            return bytes(b) if bytes(b) != bytes(img) else None
+    return None
+
+
 def gen_session(rng, ctx, big=False):
     version = rng.choice(VERSIONS)
     pool = [1, 2, 3, 7, 42, 100, 253, 254]
@@ -374,6 +394,12 @@ def gen_session(rng, ctx, big=False):
             n = rng.randrange(1, 401) if rng.random() < 0.75 else rng.choice(
                 [127, 128, 129, 255, 256, 257, 511, 512, 513, 1023, 1024, 1025, 2047, 2048])
         img = rand_bytes(rng, n)
+        if u > 0 and fws and rng.random() < 0.5:
+            # a DIFFERENT image with the same length, block count and CRC-16 as one that is already stored
+            # (under another type/version): the CRC advertises an image, it does not identify one
+            tw = crc_twin(rng, rng.choice([fws[k] for k in sorted(fws)]))
+            if tw is not None:
+                img, n = tw, len(tw)
         t, v = rand_word(rng), rand_word(rng)
         targ, varg = t, v
         if rng.random() < 0.2:
